@@ -431,6 +431,7 @@ func report(p *Prop, tier string, seed int64, st *Stats, compared, identical int
 		groups[g] = append(groups[g], f)
 	}
 	violations := 0
+	unreplayable := 0
 	knownHit := map[string]int{}
 	replayDir := filepath.Join(verifDir(), "replays")
 	const maxGroups = 12
@@ -447,10 +448,7 @@ func report(p *Prop, tier string, seed int64, st *Stats, compared, identical int
 			fmt.Printf("VIOLATION property=%s replay=%s\n", p.ID, path)
 			continue
 		}
-		msc, mv, shrunk := f.Scenario, f.V, false
-		if f.V.Kind != "data-race" {
-			msc, mv, shrunk = minimise(p, f.Scenario, f.V)
-		}
+		msc, mv, shrunk := minimise(p, f.Scenario, f.V)
 		if k := kf.match(mv); k != nil {
 			knownHit[k.ID] += len(groups[g])
 			continue
@@ -459,8 +457,19 @@ func report(p *Prop, tier string, seed int64, st *Stats, compared, identical int
 			knownHit[k.ID] += len(groups[g])
 			continue
 		}
-		violations++
 		path := writeReplay(replayDir, p.ID, seed, gi, msc, mv, shrunk)
+		if !verifyReplay(path) {
+			// the minimised scenario does not fail the same way in a fresh process: fall back to the original
+			fmt.Fprintf(os.Stderr, "note: minimised scenario %s did not replay; writing the unminimised one\n", path)
+			path = writeReplay(replayDir, p.ID, seed, gi, f.Scenario, f.V, false)
+			mv = f.V
+			if !verifyReplay(path) {
+				fmt.Fprintf(os.Stderr, "INFRA: violation (kind=%s) does not replay in a fresh process: %s\n", f.V.Kind, path)
+				unreplayable++
+				continue
+			}
+		}
+		violations++
 		fmt.Printf("VIOLATION property=%s replay=%s\n", p.ID, path)
 		fmt.Printf("  kind=%s cases=%d detail=%s\n", mv.Kind, len(groups[g]), oneLine(mv.Detail, 400))
 	}
@@ -527,6 +536,10 @@ func report(p *Prop, tier string, seed int64, st *Stats, compared, identical int
 	if violations > 0 {
 		return 1
 	}
+	if unreplayable > 0 {
+		fmt.Fprintf(os.Stderr, "INFRA: %d violation group(s) could not be reproduced by replay; not reported as violations\n", unreplayable)
+		return 2
+	}
 	if infra != "" {
 		fmt.Fprintln(os.Stderr, "INFRA:", infra)
 		return 2
@@ -580,6 +593,18 @@ func replayMain(args []string) int {
 		fmt.Fprintln(os.Stderr, "unknown property", rf.Property)
 		return 2
 	}
+	if p.Race && raceEnabled && os.Getenv("SIMKV_RACE_LOG") == "" {
+		// detector reports are read back from a log file: re-run with it configured
+		self, _ := os.Executable()
+		c := exec.Command(self, "replay", args[0])
+		c.Env = raceEnv("replay")
+		c.Stdout, c.Stderr = os.Stdout, os.Stderr
+		c.Run()
+		if c.ProcessState != nil {
+			return c.ProcessState.ExitCode()
+		}
+		return 2
+	}
 	st := NewStats()
 	vs := p.Run(rf.Scenario, st)
 	for _, v := range vs {
@@ -612,6 +637,8 @@ func main() {
 		os.Exit(selftestMain(os.Args[2:]))
 	case "gen":
 		os.Exit(genMain(os.Args[2:]))
+	case "runsc":
+		os.Exit(runscMain(os.Args[2:]))
 	}
 	fmt.Fprintln(os.Stderr, "unknown command", os.Args[1])
 	os.Exit(2)
@@ -649,4 +676,71 @@ func genMain(args []string) int {
 		fmt.Println(string(cb))
 	}
 	return 0
+}
+
+// runscMain executes one scenario file and prints its violations as JSON; used
+// to evaluate candidates in a fresh process (race reports are de-duplicated
+// per process by the detector, so in-process re-execution cannot see them again).
+func runscMain(args []string) int {
+	if len(args) < 1 {
+		return 2
+	}
+	b, err := os.ReadFile(args[0])
+	if err != nil {
+		return 2
+	}
+	var sc Scenario
+	if err := json.Unmarshal(b, &sc); err != nil {
+		return 2
+	}
+	p := registry[sc.Prop]
+	if p == nil {
+		return 2
+	}
+	vs := p.Run(&sc, NewStats())
+	out, _ := json.Marshal(vs)
+	os.Stdout.Write(out)
+	return 0
+}
+
+// raceEnv returns the environment a child needs for detector reports to be collected.
+func raceEnv(tag string) []string {
+	dir := filepath.Join(verifDir(), ".build", "out", "race")
+	os.MkdirAll(dir, 0o755)
+	rl := filepath.Join(dir, fmt.Sprintf("%s-%d", tag, os.Getpid()))
+	matches, _ := filepath.Glob(rl + ".*")
+	for _, m := range matches {
+		os.Remove(m)
+	}
+	return append(os.Environ(), "GOMAXPROCS=4", "SIMKV_RACE_LOG="+rl, "GORACE=halt_on_error=0 exitcode=0 log_path="+rl)
+}
+
+// runInSubprocess evaluates a scenario in a fresh process of this binary.
+func runInSubprocess(sc *Scenario) []Violation {
+	self, _ := os.Executable()
+	dir := filepath.Join(verifDir(), ".build", "out", "race")
+	os.MkdirAll(dir, 0o755)
+	f := filepath.Join(dir, fmt.Sprintf("cand-%d.json", os.Getpid()))
+	b, _ := json.Marshal(sc)
+	os.WriteFile(f, b, 0o644)
+	defer os.Remove(f)
+	c := exec.Command(self, "runsc", f)
+	c.Env = raceEnv("cand")
+	out, err := c.Output()
+	if err != nil {
+		return nil
+	}
+	var vs []Violation
+	json.Unmarshal(out, &vs)
+	return vs
+}
+
+// verifyReplay re-executes a written replay file in a fresh process and
+// reports whether the same violation kind recurs.
+func verifyReplay(path string) bool {
+	self, _ := os.Executable()
+	c := exec.Command(self, "replay", path)
+	c.Env = raceEnv("verify")
+	c.Run()
+	return c.ProcessState != nil && c.ProcessState.ExitCode() == 1
 }
